@@ -78,6 +78,7 @@ class Rig:
         self.evs = []
         self.errors = []
         self.applied = {}
+        self.giving_up = False
         self.chained = []       # requests submitted from a completion callback, not yet in the log: (IOCB number, destination index)
 
     def emit(self, node, octets, dest):
@@ -183,7 +184,9 @@ class Rig:
             io = self.iocbs[k]
             sq = self.c.app.queue_by_address.get(Address(d))
             if io.ioState == 1 and io.args[0].pduDestination == Address(d) and sq is not None and sq.active_iocb is not None:
+                self.giving_up = True
                 exc = self.guarded(io.abort, RuntimeError("given up by the application"), drain=False)
+                self.giving_up = False
                 self.log("abortp", k + 1, self.dests.index(d) + 1, exc)
                 self.drain()
                 return
@@ -206,8 +209,8 @@ class Rig:
 
         def done(i, k=k):
             self.cb[k] += 1
-            if kind == "n" and self.cb[k] == 1:
-                self.chain(d)
+            if kind == "n" and self.cb[k] == 1 and not self.giving_up:
+                self.chain(d)           # (not from the callback of a request the application itself gives up: AbortPending is one step)
         iocb.add_callback(done)
         exc = self.guarded(self.c.app.request_io, iocb, drain=False)
         self.log("request", k + 1, self.dests.index(d) + 1, exc, u=(kind == "u"))
